@@ -8,6 +8,7 @@ COMMON_TB = [
 FLOAT_TB = "IEEE-754 rounding: theorems are over exact rationals; the f64 instance of the same definitions is compared bit-for-bit with the Rust results on the generated cases"
 CONSTS = {"script": "gen_consts.py"}
 UNITS = {"script": "gen_units.py"}
+UNITS_ALT = {"script": "gen_units.py", "args": ["lean/CookModel/Gen/UnitsAlt.lean", "corpus/C09/alt_units.toml", "GenAlt"]}
 
 CHARTABLE = {"harness": ["chartable", "{LEAN}/CookModel/Gen/CharTable.lean"]}
 SYNTAX_TB = [
@@ -26,7 +27,7 @@ PROPS = {
                         "accuracy in [0,1] and max_den <= 64 (the documented preconditions; callers are checked under C03/C16)"],
     },
     "C09": {
-        "gen": [CONSTS, UNITS],
+        "gen": [CONSTS, UNITS, UNITS_ALT],
         "trusted_base": COMMON_TB + [FLOAT_TB,
             "translators/gen_units.py (units.toml -> Gen/Units.lean: exact decimals + f64 bits, id order and SI expansion of ConverterBuilder, fractions layers resolved as build_fractions_config does); its output is compared row by row with Converter::bundled() by the check",
             "translators/gen_consts.py (the 0.001 slack of best_unit)",
@@ -36,7 +37,7 @@ PROPS = {
                         "oracle values are finite with magnitude in [1e-9, 1e12] or zero (outside that range f64 overflow/underflow makes 'within floating-point tolerance' meaningless); non-finite and extreme values are compared with the model only"],
     },
     "C08": {
-        "gen": [CONSTS, UNITS],
+        "gen": [CONSTS, UNITS, UNITS_ALT],
         "trusted_base": COMMON_TB + [FLOAT_TB,
             "translators/gen_units.py and gen_consts.py (the converter used for fitting after scaling; see C09)",
             "the parsed recipe is an input of the model: the harness sends the quantities the real parser produced (value bits, units, Fixed/Linear), so the parser is not part of this check except for the Linear/Fixed decision, which is modelled (mkScalable) and compared on what the generator wrote",
